@@ -88,7 +88,16 @@ def judge(case, rz, err2, Zd, n, Qs, scale, budget_total, what):
 def replay_truncate(ctx, case, rng, is_eigh, use_stab, scale_pow=0, pad=False, order=None):
     d = case['d']
     Y, n = F.family_member(d, case['npre'], phys_ent(case))
-    Y, Qs = F.apply_symmetries(Y, n, rng, pad=pad, scale_pow=scale_pow, order=order)
+    shifts = None
+    if use_stab and d >= 3 and rng.random() < 0.35:
+        # stabilised rounding exists for tensors whose single cores are far from the ordinary range: leading cores
+        # huge, one later core below core_stab's threshold (zero-sum exponents, same dense tensor)
+        j = int(rng.integers(1, d))
+        a = int(rng.choice([200, 350])) if j > 1 else 350
+        shifts = [a] * j + [-a * j] + [0] * (d - j - 1)
+        if a * j > 450:          # squares of the tiny core (Gram matrices, norms) must stay representable: 2^-900
+            shifts = None
+    Y, Qs = F.apply_symmetries(Y, n, rng, pad=pad, scale_pow=scale_pow, order=order, core_shifts=shifts)
     scale = 2.0 ** scale_pow
     N, T = phys(case['N'], case), case['T']
     if N == 0:
@@ -97,7 +106,7 @@ def replay_truncate(ctx, case, rng, is_eigh, use_stab, scale_pow=0, pad=False, o
         e = float(np.sqrt((2 * T + 1) * (LAM if tiered(case) else 1.) * (d - 1) / (2.0 * N)))
     cap = case['cap'] if case['cap'] != 99 else 1.E+12
     Z = teneva.truncate(Y, e, cap, use_stab=use_stab, is_eigh=is_eigh)
-    what = 'truncate(e=%.4g, r=%s, is_eigh=%s, use_stab=%s, 2^%d)' % (e, case['cap'], is_eigh, use_stab, scale_pow)
+    what = 'truncate(e=%.4g, r=%s, is_eigh=%s, use_stab=%s, 2^%d%s)' % (e, case['cap'], is_eigh, use_stab, scale_pow, '' if shifts is None else ', core exponents %s' % shifts)
     if not F.is_wellformed(Z, n):
         return what + ': result is not a well-formed finite TT-tensor of the input shape'
     rz = [int(G.shape[2]) for G in Z[:-1]]
